@@ -94,7 +94,7 @@ def run_histories(stream, histories, ctx, label=None, check_oracle=True):
         meta = h[2] if len(h) > 2 else {}
         obs, _ = run_impl(fmt, events)
         case = {"format": fmt, "events": [ev_hex(e) for e in events]}
-        case.update(meta)
+        case.update({k: v for k, v in meta.items() if not k.startswith("_")})
         stream.case(case, nontrivial=meta.get("nontrivial", True))
         mo = parse_model(ml) if ml is not None else None
         if ml is not None and mo is None:
